@@ -380,3 +380,25 @@ def carry_open_close(rng, spec):
             ops.append({"op": "observe", "on": "real"})
     ops.append({"op": "observe", "on": "real"})
     spec["ops"] = ops
+
+
+def zero_spell_hold(rng, spec):
+    """buy-and-hold through a spell of prices that are exactly zero for two or more consecutive dates and then recover, on market-value
+    and fixed-income trees (a position worth exactly nothing is still a position)"""
+    T = max(spec["T"], 6)
+    spec["T"] = T
+    for k in ("prices", "bidoffer", "coupons", "cost_long", "cost_short"):
+        if spec.get(k):
+            for t, col in spec[k].items():
+                if len(col) < T:
+                    spec[k][t] = list(col) + [col[-1] if col else None] * (T - len(col))
+    for t in TICKERS:
+        col = spec["prices"][t]
+        col = [(10.0 + j) if (x is None or x == 0.0) else x for j, x in enumerate(col)]
+        if rng.random() < 0.7:
+            k = rng.randint(1, T - 4)
+            n = rng.randint(2, 3)
+            for j in range(k, min(T - 1, k + n)):
+                col[j] = 0.0
+        spec["prices"][t] = col
+    scripted_hold(rng, spec)
